@@ -255,12 +255,30 @@ class Extractor:
                 if len(hits) != 1:
                     raise LostAnchor('%s: loop with header containing %r found %d times' % (qual, spec['anchor'], len(hits)))
                 k = hits[0] + 1
+            if (k < 1 or k > len(lp)) and spec.get('optional'):
+                continue
             if k < 1 or k > len(lp):
                 raise LostAnchor('%s: loop #%d not found (%d loops)' % (qual, k, len(lp)))
             kw_pos, bo, kw = lp[k - 1]
             header = body[kw_pos:bo]
             new_header = header
-            if kw == 'for':
+            em = kw == 'for' and re.match(r'for\s+\(\s*(\w+)\s*,\s*(&?\s*\w+|\(\s*\w+\s*,\s*\w+\s*\))\s*\)\s+in\s+([\w.]+)\.iter\(\)\.enumerate\(\)\s*$', header.strip(), re.S)
+            if em:
+                # R12: `for (i, pat) in X.iter().enumerate()` -> `for i in 0..X.len()` + `let pat = <projection of X[i]>;`
+                # (enumerate over a slice/Vec yields (index, &element) for index 0..len, in order: std)
+                ivar, pat, xs = em.group(1), em.group(2).replace(' ', ''), em.group(3)
+                itname = spec.get('iter')
+                new_header = 'for %s in %s0..%s.len() ' % (ivar, (itname + ': ') if itname else '', xs)
+                if pat.startswith('('):
+                    a_, b_ = pat.strip('()').split(',')
+                    lets = ' let %s = &%s[%s].0; let %s = &%s[%s].1;' % (a_, xs, ivar, b_, xs, ivar)
+                elif pat.startswith('&'):
+                    lets = ' let %s = %s[%s];' % (pat[1:], xs, ivar)
+                else:
+                    lets = ' let %s = &%s[%s];' % (pat, xs, ivar)
+                self._count('R12')
+                edits.append((bo + 1, '\n' + lets))
+            elif kw == 'for':
                 hm = re.match(r'for\s+(&?)\s*(\(?[\w\s,]+\)?)\s+in\s+(.*)$', header.strip(), re.S)
                 if not hm:
                     raise Unsupported('%s: for-loop header not understood: %r' % (qual, header))
@@ -467,7 +485,7 @@ def parse_template(text):
                         i += 1
                         continue
                     p = t.split()
-                    spec = dict(ordinal=int(p[1]), lines=[])
+                    spec = dict(ordinal=int(p[1]), optional=p[0].endswith('?'), lines=[])
                     if len(p) > 3 and p[2] == 'iter':
                         spec['iter'] = p[3]
                     d['loops'].append(spec)
